@@ -82,7 +82,36 @@ def make_jobs(rng: random.Random, n_mut: int, n_gen: int) -> List[Tuple[str, Dic
     return jobs
 
 
+FIXED = [
+    # (files, main, expected rule, file, line): rules about FILES hold whatever the spelling of the path
+    ({"s.bitproto": "proto s\nconst A = 1\n", "m.bitproto": 'proto m\nimport "s.bitproto"\nimport again "./s.bitproto"\n'}, "m.bitproto", "duplicate-import", "m.bitproto", 3),
+    ({"s.bitproto": "proto s\nconst A = 1\n", "m.bitproto": 'proto m\nimport one "./s.bitproto"\nimport two "././s.bitproto"\n'}, "m.bitproto", "duplicate-import", "m.bitproto", 3),
+    ({"s.bitproto": "proto s\nconst A = 1\n", "m.bitproto": 'proto m\nimport one "s.bitproto"\nimport two "x/../s.bitproto"\n'}, "m.bitproto", "os-error", "", 0),
+    ({"s.bitproto": 'proto s\nimport back "./m.bitproto"\n', "m.bitproto": 'proto m\nimport "s.bitproto"\n'}, "m.bitproto", "cyclic-import", "s.bitproto", 2),
+    ({"m.bitproto": 'proto m\nimport me "./m.bitproto"\n'}, "m.bitproto", "cyclic-import", "m.bitproto", 2),
+    ({"s.bitproto": "proto s\nconst A = 1\n", "m.bitproto": 'proto m\nimport "s.bitproto"\nimport t "s.bitproto"\n'}, "m.bitproto", "duplicate-import", "m.bitproto", 3),
+    ({"s.bitproto": "proto s\nconst A = 1\n", "m.bitproto": 'proto m\nimport a "./s.bitproto"\nconst B = a.A\n'}, "m.bitproto", None, "", 0),
+]
+
+
+def check_fixed(run: common.Run, drv: common.Driver) -> None:
+    answers = drv.batch([{"op": "text.check", "files": [{"name": n, "text": t} for n, t in files.items()], "main": main} for (files, main, *_rest) in FIXED])
+    for (files, main, rule, efile, eline), a in zip(FIXED, answers):
+        _, real = work((0, {n: t.encode() for n, t in files.items()}, main))
+        run.evaluated()
+        run.count("text:fixed")
+        rep = {"input": {"files": files, "main": main}, "stream": "text:fixed"}
+        want = ("ok",) if rule is None else ("reject", rule, efile, eline)
+        if real != want:
+            run.violation(dict(rep, kind="impl-vs-spec", observed_impl=real, expected_by_spec=want))
+            continue
+        model = ("ok",) if "ok" in a else ("reject", a["diag"]["rule"], a["diag"]["file"] if a["diag"]["rule"] != "os-error" else "", a["diag"]["line"] if a["diag"]["rule"] != "os-error" else 0)
+        if model != want:
+            run.notes.setdefault("model_disagreements", []).append(dict(rep, observed_impl=real, model_answer=a))
+
+
 def check_text(run: common.Run, drv: common.Driver, rng: random.Random, tier: str) -> None:
+    check_fixed(run, drv)
     n_mut = {"quick": 1500, "thorough": 40000}[tier]
     jobs = make_jobs(rng, n_mut, 16 if tier == "quick" else 200)
     reqs = []
@@ -117,9 +146,14 @@ def check_text(run: common.Run, drv: common.Driver, rng: random.Random, tier: st
             run.nontrivial(("text", st, "accept", len(a.get("ok", []))))
             continue
         d = a["diag"]
-        same = d["rule"] == real[1] and d["line"] == real[3]
+        same = d["rule"] == real[1] and d["line"] == real[3] and (d["file"] == real[2] or real[1] == "os-error")
         run.count(f"text:{st}:reject:{'same rule and line' if same else 'differs'}")
         run.nontrivial(("text", st, real[1], d["rule"]))
         if not same and d["rule"] not in SYNTACTIC and real[1] not in SYNTACTIC:
-            run.notes.setdefault("model_disagreements", []).append(dict(rep, observed_impl=real, model_answer=d,
-                                                                         what="both sides report a semantic error, but not the same rule / line"))
+            if d["rule"] == real[1]:
+                # the same rule, reported against another file or line: the diagnostic does not cite the place of the violation
+                run.violation(dict(rep, kind="impl-vs-spec", observed_impl=real, expected_by_spec=d,
+                                   note="the diagnostic must cite the file and line of the violating statement"))
+            else:
+                run.notes.setdefault("model_disagreements", []).append(dict(rep, observed_impl=real, model_answer=d,
+                                                                             what="both sides report a semantic error, but not the same rule"))
